@@ -428,7 +428,8 @@ def build_file(spec, idl=None, layout=None):
            "created_by": spec.get("created_by", "pqspec version 1.0 (build 0)")}
     kv = spec.get("kv")
     if kv:
-        fmd["key_value_metadata"] = [{"key": k, "value": v} for k, v in kv.items()]
+        # a dict, or a list of (key, value) pairs (the IDL's list<KeyValue> may repeat a key)
+        fmd["key_value_metadata"] = [{"key": k, "value": v} for k, v in (kv.items() if isinstance(kv, dict) else kv)]
     want_co = spec.get("column_orders")
     if want_co is None:
         want_co = any_minmax
